@@ -17,7 +17,9 @@ fn vr_shard() -> Arc<RwLock<DatabaseShard>> {
 }
 
 fn vr_db() -> Database {
-    let shards = if SHARDS_PER_DATABASE == 2 {
+    let shards = if SHARDS_PER_DATABASE == 1 {
+        vec![vr_shard()]
+    } else if SHARDS_PER_DATABASE == 2 {
         vec![vr_shard(), vr_shard()]
     } else {
         vec![
